@@ -6,7 +6,23 @@ impl DropFn {
     #[verifier::external_body]
     pub fn call(&self, p: ElemPtr) { unimplemented!() }
 }
+/// the buckets below hi marked DELETED (not yet rehashed), ascending
+pub open spec fn deleted_upto(c: Seq<u8>, hi: int) -> Seq<int>
+    decreases hi,
+{
+    if hi <= 0 { Seq::empty() } else if c[hi - 1] == 0x80u8 { deleted_upto(c, hi - 1).push(hi - 1) } else { deleted_upto(c, hi - 1) }
+}
 impl RawTableInner {
+    // R8b': `drop(t.bucket_ptr(i, size))`, the type-erased drop_in_place of the element in bucket i, recorded in the drop log
+    #[verifier::external_body]
+    pub fn drop_elem_at(&mut self, f: DropFn, index: usize, size_of: usize)
+        requires index < old(self).nb(),
+        ensures
+            final(self).drop_log@ == old(self).drop_log@.push(index as int),
+            final(self).ctrl@ == old(self).ctrl@, final(self).bucket_mask == old(self).bucket_mask,
+            final(self).items == old(self).items, final(self).growth_left == old(self).growth_left,
+            final(self).elems == old(self).elems,
+    { unimplemented!() }
     #[verifier::external_body]
     pub fn bucket_ptr(&self, index: usize, size_of: usize) -> (r: ElemPtr)
         requires index < self.nb(),
